@@ -11,7 +11,7 @@ PROP = 'C08'
 
 
 def run(chk):
-    n = 500 if chk.tier == 'quick' else 12000
+    n = 900 if chk.tier == 'quick' else 12000
     chk.rule = ('all scene families of pipecheck with random in-domain parameter sets; the real cascade + metar_msg for '
                 'every level must return; any exception is a violation; non-trivial = some level reports something '
                 'other than NCD; distinct by scene digest')
